@@ -6,6 +6,7 @@
 import ClarabelProofs.Lemmas.ConesNN
 import ClarabelProofs.Lemmas.ConesSoc
 import ClarabelProofs.Lemmas.ConesBacktrack
+import ClarabelProofs.Lemmas.ConesComposite
 
 namespace Clarabel.C15
 open Clarabel
@@ -247,6 +248,25 @@ theorem nn_shift_margin {α : Type} [Field α] [LinearOrder α] [IsStrictOrdered
   have hi : i < z.size := by simpa [Nonneg.scaledUnitShift, Vec.translate] using h
   have := hm i hi
   constructor <;> linarith
+
+/-- [R] `_shift_to_cone_interior` on a composite of arbitrarily many zero / nonnegative /
+second-order cones (`SymSpec`: SOC dimension ≥ 1), for **any** vector `z` long enough: the
+call succeeds and in the result every cone block has margin `≥ 1 > 0`
+(`BlocksGe specs z' 1`: the result cuts into the cones' ranges and each block's bounded
+margin — `min zᵢ` for NN, `z₀ − ‖z₁‖` for SOC — is at least 1).  Covers all three branches
+(two-stage shift, small positive margin, good margin) and the re-slicing between the stages. -/
+theorem shift_to_cone_interior_margin (specs : List Composite.Spec) (z : Array ℝ) (primal : Bool)
+    (hs : ∀ sp ∈ specs, Composite.SymSpec sp) (hlen : Composite.totalNumel specs ≤ z.size) :
+    ∃ z', Composite.shiftToConeInterior specs z primal = .ok z' ∧ Composite.BlocksGe specs z' 1 :=
+  Composite.shiftToConeInterior_spec specs z primal hs hlen
+
+/-- non-vacuity: a zero, an NN and an SOC cone, 6 entries. -/
+example : (∀ sp ∈ [Composite.Spec.zero 1, .nonneg 2, .soc 3], Composite.SymSpec sp) ∧
+    Composite.totalNumel [.zero 1, .nonneg 2, .soc 3] ≤ (#[0, -1, 2, 0, 3, 4] : Array ℝ).size := by
+  refine ⟨?_, by simp [Composite.totalNumel, Composite.Spec.numel]⟩
+  intro sp hsp
+  simp only [List.mem_cons, List.not_mem_nil, or_false] at hsp
+  rcases hsp with rfl | rfl | rfl <;> simp [Composite.SymSpec]
 
 /-- [S] zero cone: the primal is forced to `0`, the dual is untouched. -/
 theorem zero_shift {α : Type} [OfNat α 0] (z : Array α) (a : α) :
